@@ -128,7 +128,14 @@ func (e *storeEnv) run(reqs []childReq) childRun {
 			r.Exit = ee.ExitCode()
 		}
 	}
-	_ = json.Unmarshal(stdout.Bytes(), &r.Res)
+	if json.Unmarshal(stdout.Bytes(), &r.Res) != nil {
+		// tolerate other output in front of the answer: the answer is the last line
+		r.Res = nil
+		lines := strings.Split(strings.TrimRight(stdout.String(), "\n"), "\n")
+		if json.Unmarshal([]byte(lines[len(lines)-1]), &r.Res) != nil {
+			r.Res = nil
+		}
+	}
 	return r
 }
 
@@ -320,13 +327,23 @@ func c19Property(env *storeEnv) func(t *rapid.T) {
 				checkChild("store", r, 1)
 				serr := r.Res[0].Err
 				switch {
-				case baseBroken == "a regular file" || (baseBroken != "" && !existed):
+				case baseBroken == "a regular file":
+					// a regular file sits where the directory belongs. A refusal is the expected outcome; a store that
+					// reports success has to have made the place usable (clause 1 holds for it like for any other)
 					if serr == "" {
-						t.Fatalf("store succeeded although the configured directory is %s%s", baseBroken, history())
+						if st, err := os.Stat(base); err != nil || !st.IsDir() {
+							t.Fatalf("store reported success although the configured directory is a regular file and still is%s", history())
+						}
+						hx.Class("store_replaced_the_file_in_the_way")
+						baseBroken = ""
+						model = map[string][]byte{id: raw}
+						damaged = map[string]string{}
+						entryPath = map[string]string{}
 					}
 				case baseBroken != "":
-					// unwritable directory, existing entry: replacing it in place may or may not be possible
-					if serr == "" && !(noClobber && damaged[id] == "") {
+					// unwritable directory: creating or replacing an entry may or may not be possible (how entries are
+					// laid out inside the directory is the store's business); a success is verified like any other
+					if serr == "" && !(existed && noClobber && damaged[id] == "") {
 						model[id] = raw
 						delete(damaged, id)
 					} else if serr == "" {
